@@ -82,12 +82,13 @@ type vharness struct {
 	epoch   int
 	ninit   int
 	insts   []*vrecFS
-	live    map[string][]int // mountpoint name -> instances that have it mounted, in mount order (mount tables of the fakes)
-	calls   []vcall          // filesystem calls of the request in progress
-	failMp  map[string]bool  // Mount of these mountpoints fails (restore failures imposed on Init)
-	fsFail  bool             // the filesystem call of this request fails
-	newFail bool             // construction of the filesystem fails
-	crash   bool             // the process dies directly after the filesystem call of this request took effect
+	live    map[string][]int  // mountpoint name -> instances that have it mounted, in mount order (mount tables of the fakes)
+	liveLab map[string]string // mountpoint name -> label set of the filesystem-level mount that is live on it
+	calls   []vcall           // filesystem calls of the request in progress
+	failMp  map[string]bool   // Mount of these mountpoints fails (restore failures imposed on Init)
+	fsFail  bool              // the filesystem call of this request fails
+	newFail bool              // construction of the filesystem fails
+	crash   bool              // the process dies directly after the filesystem call of this request took effect
 }
 
 // vcrash is what the recording filesystem panics with to end the manager process inside a request
@@ -136,6 +137,7 @@ func (f *vrecFS) Mount(ctx context.Context, mountpoint string, labels map[string
 		return errInjectd
 	}
 	f.h.live[n] = append(f.h.live[n], f.id)
+	f.h.liveLab[n] = labOf(labels)
 	if f.h.crash {
 		panic(vcrash{})
 	}
@@ -174,6 +176,9 @@ func (f *vrecFS) Unmount(ctx context.Context, mountpoint string) error {
 		return fmt.Errorf("verif: %s is not mounted by instance %d", n, f.id)
 	}
 	f.h.live[n] = append(append([]int{}, f.h.live[n][:i]...), f.h.live[n][i+1:]...)
+	if len(f.h.live[n]) == 0 {
+		delete(f.h.liveLab, n)
+	}
 	if f.h.crash {
 		panic(vcrash{})
 	}
@@ -206,7 +211,7 @@ func newVHarness(t *testing.T, base string, nmp int) *vharness {
 	if err != nil {
 		t.Fatal(err)
 	}
-	h := &vharness{t: t, dir: dir, store: filepath.Join(dir, "store", "fusestore.db"), live: map[string][]int{}}
+	h := &vharness{t: t, dir: dir, store: filepath.Join(dir, "store", "fusestore.db"), live: map[string][]int{}, liveLab: map[string]string{}}
 	for i := 1; i <= nmp; i++ {
 		h.mps = append(h.mps, fmt.Sprintf("m%d", i))
 	}
@@ -230,6 +235,9 @@ func (h *vharness) kill() {
 	h.fm = nil
 	for k := range h.live {
 		delete(h.live, k)
+	}
+	for k := range h.liveLab {
+		delete(h.liveLab, k)
 	}
 }
 
@@ -359,6 +367,14 @@ func (h *vharness) observe(e vev) vev {
 		live[n] = append([]int{}, h.live[n]...)
 	}
 	e["live"] = live
+	liveLab := map[string]string{}
+	for _, n := range h.mps {
+		liveLab[n] = "none"
+		if l, ok := h.liveLab[n]; ok {
+			liveLab[n] = l
+		}
+	}
+	e["liveLab"] = liveLab
 	e["epoch"] = h.epoch
 	calls := h.calls
 	if calls == nil {
